@@ -78,9 +78,27 @@ pub fn options_dyn(fs: Arc<dyn FileSystem>, cfg: &Cfg) -> DbOptions {
         max_file_size: cfg.file,
         max_block_size: cfg.block,
         reuse_log_files: cfg.reuse,
-        filter_policy: Arc::new(raindb::BloomFilterPolicy::new(10)),
-        block_cache: raindb::verif::new_block_cache(1 << 14),
+        filter_policy: Arc::new(raindb::BloomFilterPolicy::new(bloom_bits(cfg))),
+        block_cache: raindb::verif::new_block_cache(cache_capacity(cfg)),
     }
+}
+
+/// Block-cache capacity of a configuration: a third of the configurations get the smallest cache the
+/// implementation accepts (2 entries), so that every block read evicts another block while iterators
+/// and compactions still hold handles to evicted entries. A pure function of the configuration, so
+/// that a case stays a plain value.
+pub fn cache_capacity(cfg: &Cfg) -> usize {
+    if (cfg.memtable / 4 + cfg.file as usize / 2 + cfg.block / 16) % 3 == 1 {
+        2
+    } else {
+        1 << 14
+    }
+}
+
+/// Bloom bits per key of a configuration (1, 10 or 24): re-drawn with the configuration at every
+/// reopen, so tables written under one setting are read by a policy instance with another.
+pub fn bloom_bits(cfg: &Cfg) -> usize {
+    [10, 1, 24, 10][(cfg.memtable / 100 + cfg.block / 16 + cfg.reuse as usize) % 4]
 }
 
 struct IterState {
@@ -113,6 +131,8 @@ pub struct Interp<'a> {
     compactions_since_snapshot: Vec<u64>,
     /// C10: table files whose stored first/last entries were already compared (files are immutable)
     verified_tables: BTreeMap<u64, (VKey, VKey)>,
+    /// read counter: every third read runs with fill_cache = false
+    ro_tick: std::cell::Cell<u32>,
 }
 
 fn epoch() -> u64 {
@@ -145,7 +165,16 @@ impl<'a> Interp<'a> {
             reopened_changed_cfg: false,
             compactions_since_snapshot: vec![],
             verified_tables: BTreeMap::new(),
+            ro_tick: std::cell::Cell::new(0),
         }
+    }
+
+    /// ReadOptions for the next read: fill_cache is false for every third read (blocks read that way
+    /// must not enter the cache, and must be served correctly all the same).
+    fn ro(&self, snapshot: Option<Snapshot>) -> ReadOptions {
+        let t = self.ro_tick.get();
+        self.ro_tick.set(t.wrapping_add(1));
+        ReadOptions { fill_cache: t % 3 != 2, snapshot }
     }
 
     fn fail<T>(&self, what: String) -> R<T> {
@@ -202,7 +231,7 @@ impl<'a> Interp<'a> {
     }
 
     fn check_get_latest(&mut self, k: &[u8]) -> R<()> {
-        let got = self.db().get(ReadOptions::default(), k);
+        let got = self.db().get(self.ro(None), k);
         let want = self.model.get(k);
         if let Some((_, true)) = self.key_epochs.get(k) {
             self.stats.bump("read_of_key_with_older_persisted_version");
@@ -240,10 +269,7 @@ impl<'a> Interp<'a> {
     }
 
     fn scan(&self, snap: Option<&Snapshot>) -> Result<Vec<(Vec<u8>, Vec<u8>)>, String> {
-        let ro = ReadOptions {
-            fill_cache: true,
-            snapshot: snap.cloned(),
-        };
+        let ro = self.ro(snap.cloned());
         let mut it = self
             .db()
             .new_iterator(ro)
@@ -266,10 +292,7 @@ impl<'a> Interp<'a> {
             .universe
             .iter()
             .map(|k| {
-                let ro = ReadOptions {
-                    fill_cache: true,
-                    snapshot: snap.cloned(),
-                };
+                let ro = self.ro(snap.cloned());
                 match self.db().get(ro, k) {
                     Ok(v) => Ok(Some(v)),
                     Err(RainDBError::KeyNotFound) => Ok(None),
@@ -859,15 +882,9 @@ impl<'a> Interp<'a> {
                     let (ro, frozen) = match at {
                         Some(sel) if !self.snaps.is_empty() => {
                             let i = pick(*sel, self.snaps.len());
-                            (
-                                ReadOptions {
-                                    fill_cache: true,
-                                    snapshot: Some(self.snaps[i].0.clone()),
-                                },
-                                self.snaps[i].1.clone(),
-                            )
+                            (self.ro(Some(self.snaps[i].0.clone())), self.snaps[i].1.clone())
                         }
-                        _ => (ReadOptions::default(), self.model.clone()),
+                        _ => (self.ro(None), self.model.clone()),
                     };
                     match self.db().new_iterator(ro) {
                         Ok(it) => self.iters.push(IterState {
